@@ -156,19 +156,19 @@ func init() {
 	reg(&propDef{
 		ID: "C18",
 		Runs: []hrun{
-			{Pkg: chainPkg, Fn: "ZzC18K2B0", Tiers: "qt", Reach: []string{"c18-end", "producer-finished-without-consumer"}, Bound: "2 items, unbuffered output, all schedules"},
-			{Pkg: chainPkg, Fn: "ZzC18K3B0", Tiers: "qt", Reach: []string{"c18-end", "producer-finished-without-consumer"}, Bound: "3 items, buffer 0"},
-			{Pkg: chainPkg, Fn: "ZzC18K3B1", Tiers: "qt", Reach: []string{"c18-end", "producer-finished-without-consumer"}, Bound: "3 items, buffer 1"},
-			{Pkg: chainPkg, Fn: "ZzC18K3B1Take1", Tiers: "qt", Reach: []string{"c18-end"}, Bound: "3 items, buffer 1, consumer takes 1 then Stop with items pending"},
-			{Pkg: chainPkg, Fn: "ZzC18StepSmall", Tiers: "qt", Reach: []string{"c18-end", "overflow-non-empty"}, Bound: "worker started from every state with capacity<=1, overflow<=2, then <=1 send and any number of receives, all schedules"},
+			{Pkg: chainPkg, Fn: "ZzC18K2B0", Tiers: "qt", Sched: true, Reach: []string{"c18-end", "producer-finished-without-consumer"}, Bound: "2 items, unbuffered output, all schedules"},
+			{Pkg: chainPkg, Fn: "ZzC18K3B0", Tiers: "qt", Sched: true, Reach: []string{"c18-end", "producer-finished-without-consumer"}, Bound: "3 items, buffer 0"},
+			{Pkg: chainPkg, Fn: "ZzC18K3B1", Tiers: "qt", Sched: true, Reach: []string{"c18-end", "producer-finished-without-consumer"}, Bound: "3 items, buffer 1"},
+			{Pkg: chainPkg, Fn: "ZzC18K3B1Take1", Tiers: "qt", Sched: true, Reach: []string{"c18-end"}, Bound: "3 items, buffer 1, consumer takes 1 then Stop with items pending"},
+			{Pkg: chainPkg, Fn: "ZzC18StepSmall", Tiers: "qt", Sched: true, Reach: []string{"c18-end", "overflow-non-empty"}, Bound: "worker started from every state with capacity<=1, overflow<=2, then <=1 send and any number of receives, all schedules"},
 			{Pkg: chainPkg, Fn: "ZzC18BtcdK3", Tiers: "qt", NoNative: true, Sched: true, Reach: []string{"c18-end", "producer-finished-without-consumer"}, Bound: "the notification queue inside the btcd client (real RPCClient.handler goroutine): a producer goroutine sends 3 notifications while the consumer receives, every interleaving with at most 2 preemptions; then Stop"},
 			{Pkg: chainPkg, Fn: "ZzC18NeutrinoK3", Tiers: "qt", NoNative: true, Sched: true, Reach: []string{"c18-end", "producer-finished-without-consumer"}, Bound: "the same for the neutrino client (real NeutrinoClient.notificationHandler goroutine)"},
 			{Pkg: chainPkg, Fn: "ZzC18BtcdBurst", Tiers: "qt", NoNative: true, Sched: true, Reach: []string{"c18-end", "more-than-32-pending"}, Bound: "btcd client handler, one schedule (no preemptive switches): send 5, receive 3, send 36 (38 pending), receive 10, send 20, drain: 61 notifications in order"},
 			{Pkg: chainPkg, Fn: "ZzC18NeutrinoBurst", Tiers: "qt", NoNative: true, Sched: true, Reach: []string{"c18-end", "more-than-32-pending"}, Bound: "neutrino client handler, the same burst pattern"},
-			{Pkg: chainPkg, Fn: "ZzC18K4B1", Tiers: "t", Reach: []string{"c18-end"}, Bound: "4 items, buffer 1"},
-			{Pkg: chainPkg, Fn: "ZzC18K4B2", Tiers: "t", Reach: []string{"c18-end"}, Bound: "4 items, buffer 2"},
-			{Pkg: chainPkg, Fn: "ZzC18K4B0Take2", Tiers: "t", Reach: []string{"c18-end"}, Bound: "4 items, buffer 0, consumer takes 2"},
-			{Pkg: chainPkg, Fn: "ZzC18Step", Tiers: "t", Reach: []string{"c18-end", "overflow-non-empty"}, Bound: "worker started from every state with capacity<=2, overflow<=3, then <=2 sends, all schedules"},
+			{Pkg: chainPkg, Fn: "ZzC18K4B1", Tiers: "t", Sched: true, Reach: []string{"c18-end"}, Bound: "4 items, buffer 1"},
+			{Pkg: chainPkg, Fn: "ZzC18K4B2", Tiers: "t", Sched: true, Reach: []string{"c18-end"}, Bound: "4 items, buffer 2"},
+			{Pkg: chainPkg, Fn: "ZzC18K4B0Take2", Tiers: "t", Sched: true, Reach: []string{"c18-end"}, Bound: "4 items, buffer 0, consumer takes 2"},
+			{Pkg: chainPkg, Fn: "ZzC18Step", Tiers: "t", Sched: true, Reach: []string{"c18-end", "overflow-non-empty"}, Bound: "worker started from every state with capacity<=2, overflow<=3, then <=2 sends, all schedules"},
 		},
 		Assume:  []string{"cooperative scheduler: context switches at channel operations and selects only; the default branch of a non-blocking select and the arrival order of operations on the channels such selects mention are scheduling choices (sched.go); items are symbolic but the order property does not depend on their values"},
 		Outside: "ConcurrentQueue: more than 4 items in flight, buffers larger than 2, several producers or consumers; client handlers: GetBestBlock and the rpc client's shutdown are stubbed, backlogs other than the listed burst pattern; interleavings are enumerated exhaustively (structural forks), the solver only supplies item values",
